@@ -18,6 +18,12 @@ def make(rnd, k):
     kind = rnd.choice(['sync', 'sync', 'async', 'gen'])
     npre = rnd.randint(1, 3)
     stack = [['pre', gen.gen_sval(rnd, ids, fsig, raising=.05, underscore_first=.3)] for _ in range(npre)]
+    if rnd.random() < .3:
+        # exception contracts on the same function: a failing precondition (whatever its configured error type) is not an exception of the body
+        extra = []
+        if rnd.random() < .7: extra.append(['raises', ids(), [scn.cls(rnd.choice(['ZeroDivisionError', 'LookupError']))], None, None])
+        if rnd.random() < .5: extra.append(['reason', scn.cls(rnd.choice(['ValueError', 'KeyError'])), {'id': ids(), 'sig': [['_', 'PosOrKw', None]], 'expr': ['const', {'b': False}], 'msg': None, 'exc': None}])
+        for it in extra: stack.insert(rnd.randint(0, len(stack)), it)
     body = [['yield', ['locals']]] if kind == 'gen' else [['return', ['locals']]]
     driver, calls = [], []
     for j in range(rnd.randint(2, 4)):
@@ -34,6 +40,7 @@ def make(rnd, k):
         gsig = [[p[0], p[1], ({'i': p[2]['i'] + 7} if (p[2] is not None and 'i' in p[2]) else p[2])] for p in fsig]
         gstack = copy.deepcopy(stack)
         for it in gstack:
+            if it[0] != 'pre': continue
             it[1]['id'] = ids()
             if [p[0] for p in it[1]['sig']] != ['_']:
                 it[1]['sig'] = [[p[0], p[1], next((q[2] for q in gsig if q[0] == p[0]), p[2])] for p in it[1]['sig']]
